@@ -10,6 +10,11 @@ from engine import PPCase
 from interp import Inconclusive
 
 PID = 'C04'
+# known findings, recognised by re-running the reference WITH the defect emulated: a deviation is attributed to a finding only if
+# the emulating reference reproduces the real output under the counterexample's assignment
+QUIRK_ROLES = [(['elsif_predefined_uses_ifid'], 'F3:elsif-predefined-test-uses-first-identifier'),
+               (['cond_head_ws_dropped'], 'F14:white-space-after-conditional-head-dropped'),
+               (['elsif_predefined_uses_ifid', 'cond_head_ws_dropped'], 'F14:white-space-after-conditional-head-dropped')]
 
 
 def evalfn(quirks=()):
@@ -48,16 +53,20 @@ def work(pg):
         else:
             # classify against known-finding emulations
             role = 'tokens:%s' % pg.label
-            cr3 = None
-            try:
-                ref3, _ = ppsuite.run_reference(case, pg.items, case.path, evalfn(['elsif_predefined_uses_ifid']))
-                for fp in ref3:
-                    m = ppsuite.joint_model(fp.pc + [_model_constraint(mm['model'])])
-                    if m is not None and fp.value[0] == 'ok' and nat.get('ok') and \
-                            ppsuite.ref_tokens(fp.value[1]) == ppsuite.tokens_of(nat['text']):
-                        role = 'F3:elsif-predefined-test-uses-first-identifier'
-            except Exception:
-                pass
+            for quirks, qrole in QUIRK_ROLES:
+                try:
+                    ref3, _ = ppsuite.run_reference(case, pg.items, case.path, evalfn(quirks))
+                    hit = False
+                    for fp in ref3:
+                        m = ppsuite.joint_model(fp.pc + [_model_constraint(mm['model'])])
+                        if m is not None and fp.value[0] == 'ok' and nat.get('ok') and \
+                                ppsuite.ref_tokens(fp.value[1]) == ppsuite.tokens_of(nat['text']):
+                            hit = True
+                    if hit:
+                        role = qrole
+                        break
+                except Exception:
+                    pass
             cex['status'] = 'reproduced'
             cex['role'] = role
         out['cex'].append(cex)
@@ -80,7 +89,7 @@ def main(argv=None):
     rep = E.Reporter(PID, ev)
     try:
         E.setup()
-        progs = ppfamily.cond_programs(args.tier, args.seed)
+        progs = ppfamily.cond_programs(args.tier, args.seed) + [p for p in ppfamily.ws_programs() if p.label.startswith('ws/cond')]
         if args.only:
             progs = [p for p in progs if args.only in p.label]
         results = proprun.pmap(work, progs)
